@@ -15,6 +15,7 @@ BASES = [
     ("deref", [{"mov": [{"$deref": {"main_reg": "%rax", "constant_offset": "0x8"}}, "rbx"]}, "ret"]),
     ("op_or", [{"mov": [{"$or": ["rax", "rbx"]}, "rcx"]}, "ret"]),
     ("names", ["movl", {"movq": ["raxx"]}, "ret"]),
+    ("times_max_only", ["push", {"mov": {"times": {"max": 2}}}, "ret", {"add": ["a"], "times": {"max": 3}}]),
     ("times_twice", ["push", {"mov": {"times": 2}}, "pop", {"mov": {"times": 3}}, "ret", "mov"]),
     ("ints", [{"mov": [0, "rax"]}, {"add": [8, "rax"]}, "ret"]),
     ("dup", ["papa", {"mov": ["0xffff", "rax"]}, "ret"]),
